@@ -8,7 +8,7 @@ import (
 	"github.com/emersion/go-webdav/vsim/rt"
 )
 
-var statusFaultKinds = []string{"status-empty", "status-text", "status-long-text", "status-daverror", "status-daverror-large", "status-xml-garbage", "status-html", "status-keep-body", "early-status"}
+var statusFaultKinds = []string{"status-empty", "status-text", "status-long-text", "status-daverror", "status-daverror-large", "status-xml-garbage", "status-html", "status-other-type", "status-keep-body", "early-status"}
 
 // GenC14 drives every public client method of the three packages against the
 // real handlers while the transport damages the exchange.
@@ -111,7 +111,7 @@ func GenC14(seed uint64, tier string) *Plan {
 		st := Step{DelayNS: 1000, Call: c}
 		switch r.Weighted([]int{14, 34, 18, 6, 6, 14, 4, 4}) {
 		case 1: // status replaced
-			st.Faults = []Fault{{Seam: "resp", Kind: rt.Pick(r, statusFaultKinds), Arg: 100 + r.Intn(500)}}
+			st.Faults = []Fault{{Seam: "resp", Kind: rt.Pick(r, statusFaultKinds), Arg: 100 + r.Intn(500), Sel: r.Intn(16)}}
 			if r.Chance(0.3) {
 				st.Faults[0].Arg = rt.Pick(r, []int{100, 101, 199, 200, 201, 204, 206, 207, 226, 299, 300, 301, 304, 307, 399, 400, 401, 403, 404, 405, 409, 412, 423, 424, 499, 500, 501, 503, 507, 599})
 			}
@@ -135,6 +135,11 @@ func GenC14(seed uint64, tier string) *Plan {
 				Arg: rt.Pick(r, []int{403, 404, 404, 423, 424, 500, 507, 102, 301})}}
 			if r.Chance(0.4) {
 				st.Faults[0].Note = "keep-value"
+			}
+			if st.Faults[0].Kind == "ms-response-status" && r.Chance(0.35) {
+				// the failing status is ADDED to the response, its propstats stay
+				// (not what RFC 4918 section 14.24 allows, but what servers send)
+				st.Faults[0].Note = "keep-propstat"
 			}
 		case 6:
 			st.Faults = []Fault{{Seam: "resp", Kind: rt.Pick(r, []string{"no-content-type", "wrong-content-type"})}}
@@ -175,7 +180,7 @@ func GenC14Exhaustive(seed uint64, tier string) *Plan {
 		}
 	} else {
 		for s := 100; s <= 599; s++ {
-			pl.Steps = append(pl.Steps, Step{DelayNS: 1000, Call: c, Faults: []Fault{{Seam: "resp", Kind: rt.Pick(r, statusFaultKinds), Arg: s}}})
+			pl.Steps = append(pl.Steps, Step{DelayNS: 1000, Call: c, Faults: []Fault{{Seam: "resp", Kind: rt.Pick(r, statusFaultKinds), Arg: s, Sel: r.Intn(16)}}})
 		}
 	}
 	return pl
